@@ -145,6 +145,7 @@ fn cnf_shape(nlines: usize, lens: [usize; 3]) {
     let mut ndisj = 0usize;
     let mut i = 0;
     while i < nlines {
+        let line_evaluated = !errored;
         let mut lp = false;
         let mut lf = false;
         let mut j = 0;
@@ -162,7 +163,6 @@ fn cnf_shape(nlines: usize, lens: [usize; 3]) {
             }
             j += 1;
         }
-        let line_evaluated = lp || lf || errored || (lens[i] > 0 && conj[i][0].hits.get() == 1);
         if line_evaluated {
             let ls: u8 = if errored { 1 } else if lp { 0 } else if lf { 1 } else { 2 };
             if lens[i] > 1 {
@@ -220,15 +220,18 @@ fn k_cnf_0() {
     lib_only!();
     cnf_shape(0, [1, 1, 1]);
 }
-cnf_harness!(k_cnf_1_1, 1usize, 1usize, 3usize);
-cnf_harness!(k_cnf_1_2, 1usize, 2usize, 3usize);
-cnf_harness!(k_cnf_1_3, 1usize, 3usize, 3usize);
+// quick: 1 line x 1..3 alternatives; 2 lines x <= 2 alternatives
+cnf_harness!(k_cnf_1_1, 1usize, 1usize, 1usize);
+cnf_harness!(k_cnf_1_2, 1usize, 2usize, 1usize);
+cnf_harness!(k_cnf_1_3, 1usize, 3usize, 1usize);
+cnf_harness!(k_cnf_2_1q, 2usize, 1usize, 2usize);
+cnf_harness!(k_cnf_2_2q, 2usize, 2usize, 2usize);
+// thorough: 2 lines x <= 3 alternatives; 3 lines x <= 2 alternatives
 cnf_harness!(k_cnf_2_1, 2usize, 1usize, 3usize);
 cnf_harness!(k_cnf_2_2, 2usize, 2usize, 3usize);
 cnf_harness!(k_cnf_2_3, 2usize, 3usize, 3usize);
-cnf_harness!(k_cnf_3_1, 3usize, 1usize, 3usize);
-cnf_harness!(k_cnf_3_2, 3usize, 2usize, 3usize);
-cnf_harness!(k_cnf_3_3, 3usize, 3usize, 3usize);
+cnf_harness!(k_cnf_3_1, 3usize, 1usize, 2usize);
+cnf_harness!(k_cnf_3_2, 3usize, 2usize, 2usize);
 
 // ---------------------------------------------------------------------------------------------
 // U-unary: unary_operation truth tables x operator-level not x prefix not (C01, C03)
